@@ -178,3 +178,14 @@ Proof.
   destruct (removelast (x :: p)); [inversion H; auto|].
   destruct (fs_lookup fs (s :: l)) as [[?|]|]; try discriminate. inversion H; auto.
 Qed.
+
+Lemma fs_lookup_in_nodup_app : forall news fs q n, NoDup (map fst news) -> In (q, n) news ->
+  fs_lookup (news ++ fs) q = Some n.
+Proof.
+  induction news as [|[k m] news IH]; simpl; intros fs q n ND I; [tauto|].
+  inversion ND; subst. destruct I as [I|I].
+  - inversion I; subst. rewrite path_eqb_refl. reflexivity.
+  - destruct (path_eqb q k) eqn:E.
+    + apply path_eqb_eq in E. subst. exfalso. apply H1. apply (in_map fst) in I. exact I.
+    + apply IH; auto.
+Qed.
